@@ -157,9 +157,13 @@ def rule_chunk(run):
     tab = load_table(prog, 't2incons', 't2incon_format_specification')
     nf = len(tab['incon2'][1])
     wr = prog.func(C + 'write')
+    from .io_common import linecount_rule
+    nlc = linecount_rule(run, wr, [tab], rule='CHUNK') + linecount_rule(run, prog.func(C + 'read'), [tab], rule='CHUNK')
     ll = [n for n in ast.walk(wr.node) if isinstance(n, ast.Assign) and norm(n.targets[0]) == 'linelen']
     key = 't2incon.write :: values per incon2 line'
-    if len(ll) != 1: run.unknown(key, 'linelen not found', where=wr.where()); return
+    if len(ll) != 1:
+        if nlc: return        # another chunking idiom, decided by the line-count rule above
+        run.unknown(key, 'linelen not found', where=wr.where()); return
     r = compare(ll[0].value, 'min(len(vals), %d)' % nf)
     if r == 'equal': run.ok(key, {'per_line': nf}, where=wr.where(ll[0]))
     else: run.violated(key, 'line length is `%s` but record incon2 has %d fields: values beyond the record are dropped by '
